@@ -13,7 +13,7 @@ m = {
     "hooks": {
         "guard": "verif",
         "enable": "go build -tags verif (the harness module /verif/harness replaces github.com/lightninglabs/neutrino => /repo and builds it with -tags verif)",
-        "baseline_off_cmd": "cd /repo && GOFLAGS=-mod=mod go test -vet=off -count=1 -timeout 25m ./... && cd cache && GOFLAGS=-mod=mod go test -vet=off -count=1 ./...",
+        "baseline_off_cmd": "for m in . ./cache; do (cd /repo/$m && GOFLAGS=-mod=mod go test -json -vet=off -count=1 -timeout 25m ./...); done",
         "source_commits": [h.split()[0] for h in hooks],
         "add_only": True,
     },
